@@ -212,7 +212,7 @@ fn md_toggle_total(ch: u8) -> u8 {
     md_toggle(ch).unwrap()
 }
 
-fn dispatch(case: &Case) -> PResult {
+pub fn dispatch(case: &Case) -> PResult {
     match case.codec {
         CodecId::MIupac => seq_case::<MIupacC>(case, mi_mask, mi_unmask),
         CodecId::MDna => seq_case::<MDnaC>(case, md_toggle_total, md_toggle_total),
